@@ -117,15 +117,23 @@ def oracle(R, findings):
                 if eo == "add" and em > 0 and tail < em:
                     findings.append(("eof-add", "nl_end_of_file=add, min=%d but the output ends with %d line break(s)" % (em, tail)))
     # ---- blank lines next to braces
+    # documented overrides: nl_inside_namespace > 0 sets the count inside a namespace, nl_inside_empty_func > 0 inside an empty function body
+    def overridden(c, other):
+        return (iv("nl_inside_namespace") > 0 and c["ptype"] == "NAMESPACE") or \
+               (iv("nl_inside_empty_func") > 0 and c["ptype"] in ("FUNC_DEF", "FUNC_CLASS_DEF") and other in ("BRACE_CLOSE", "BRACE_OPEN"))
     if vals.get("eat_blanks_after_open_brace") == "true":
         for i, c in enumerate(fin[:-1]):
             if c["type"] == "BRACE_OPEN" and fin[i + 1]["type"] == "NEWLINE" and fin[i + 1]["nl_count"] > 1 and not (c["flags"] & 1):
                 nxt = fin[i + 2]["type"] if i + 2 < len(fin) else None
+                if overridden(c, nxt):
+                    continue
                 findings.append(("eat-open|%s|%s" % (c["ptype"], nxt), "eat_blanks_after_open_brace: %d line breaks after '{' (parent %s, next %s)" % (fin[i + 1]["nl_count"], c["ptype"], nxt)))
     if vals.get("eat_blanks_before_close_brace") == "true":
         for i, c in enumerate(fin):
             if i and c["type"] == "BRACE_CLOSE" and fin[i - 1]["type"] == "NEWLINE" and fin[i - 1]["nl_count"] > 1 and not (c["flags"] & 1):
                 prv = fin[i - 2]["type"] if i >= 2 else None
+                if overridden(c, prv):
+                    continue
                 findings.append(("eat-close|%s|%s" % (c["ptype"], prv), "eat_blanks_before_close_brace: %d line breaks before '}' (parent %s, previous %s)" % (fin[i - 1]["nl_count"], c["ptype"], prv)))
 
 
